@@ -90,10 +90,12 @@ def reqImp : Nat → List CompE → CompE → Bool
   | 0, _, c => c.imp.isSome
   | n + 1, cs, c => c.imp.isSome || c.kids.any fun k => match findC cs k with | none => false | some kc => reqImp n cs kc
 
-/-- units used by a component and by the local components encapsulated below it -/
+/-- units used by a component and by the local components encapsulated below it, in the order in which `fetchComponent`
+    collects them: it keeps the components still to visit on a stack, so the children of a component are taken last
+    child first -/
 def subUnits : Nat → List CompE → CompE → List String
   | 0, _, c => c.units
-  | n + 1, cs, c => c.units ++ c.kids.flatMap fun k => match findC cs k with
+  | n + 1, cs, c => c.units ++ c.kids.reverse.flatMap fun k => match findC cs k with
       | none => []
       | some kc => if kc.imp.isSome then [] else subUnits n cs kc
 
